@@ -36,6 +36,9 @@ type Template struct {
 	tokens []*Token
 	parser *Parser
 
+	// how many templates deep this one was loaded (include / extends / import / ssi chain)
+	depth int
+
 	// first come, first serve (it's important to not override existing entries in here)
 	level          int
 	parent         *Template
@@ -55,7 +58,24 @@ func newTemplateString(set *TemplateSet, tpl []byte) (*Template, error) {
 	return newTemplate(set, "<string>", true, tpl)
 }
 
+// maxTemplateDepth bounds chains of templates loading templates. A template that includes,
+// extends or imports itself (directly or through others) would otherwise recurse until the
+// stack is exhausted - at compile time for static references, at execution time for
+// computed includes.
+const maxTemplateDepth = 100
+
 func newTemplate(set *TemplateSet, name string, isTplString bool, tpl []byte) (*Template, error) {
+	return newTemplateAtDepth(set, name, isTplString, tpl, 0)
+}
+
+func newTemplateAtDepth(set *TemplateSet, name string, isTplString bool, tpl []byte, depth int) (*Template, error) {
+	if depth > maxTemplateDepth {
+		return nil, &Error{
+			Filename:  name,
+			Sender:    "templatedepth",
+			OrigError: fmt.Errorf("templates are nested more than %d deep (does '%s' include, extend or import itself?)", maxTemplateDepth, name),
+		}
+	}
 	strTpl := string(tpl)
 
 	// Create the template
@@ -68,6 +88,7 @@ func newTemplate(set *TemplateSet, name string, isTplString bool, tpl []byte) (*
 		blocks:         make(map[string]*NodeWrapper),
 		exportedMacros: make(map[string]*tagMacroNode),
 		Options:        newOptions(),
+		depth:          depth,
 	}
 	// Copy all settings from another Options.
 	t.Options.Update(set.Options)
